@@ -12,6 +12,7 @@ from vlib import Check, build, tlc, workdir
 
 PID = "C12"
 R = 3
+MAX_ROUNDS = 4      # TLC stops at the first failing step; failing histories are set aside and TLC is run again
 DOM_LANG = collections.OrderedDict([("intervals", "itv"), ("sparse_dbm", "zone"), ("split_dbm", "zone"), ("split_oct", "oct")])
 LANGS = ["itv", "zone", "oct"]
 LANG_ORDER = {"itv": 0, "zone": 1, "oct": 2}
@@ -236,7 +237,7 @@ def replay_real(label, hs, doms_by_group):
     return wd, prims, recs
 
 
-def judge(ck, label, traces, timeout=1500, count=True):
+def judge(ck, label, traces, timeout=1500, count=True, rounds=None):
     """TLC on the traces; stops at the first failing step (no -continue: deep behaviours); the failing
     histories are then set aside and TLC is run again so that distinct failures are all seen"""
     wd = os.path.join(vlib.BUILD, "work", "c12-" + label)
@@ -245,10 +246,16 @@ def judge(ck, label, traces, timeout=1500, count=True):
     vlib.write_known_for_spec(kp)
     fails, knowns, seen = [], [], set()
     todo = list(traces)
-    for rnd in range(6):
+    byid = {t["id"]: t for t in traces}
+    classes = []          # failure classes already collected: later TLC runs report their instances as SEEN and go on
+    sp = os.path.join(wd, "seen.json")
+    for rnd in range(rounds or MAX_ROUNDS):
         tp = os.path.join(wd, "traces%d.ndjson" % rnd)
         vlib.write_ndjson(tp, todo)
-        r = tlc("ExactOps", "ExactOps", "c12-%s-%d" % (label, rnd), env={"EXACT_TRACES": tp, "KNOWN_FINDINGS": kp, "EXACT_R": R}, cont=False, timeout=timeout)
+        with open(sp, "w") as f:
+            json.dump(classes, f)
+        r = tlc("ExactOps", "ExactOps", "c12-%s-%d" % (label, rnd),
+                env={"EXACT_TRACES": tp, "KNOWN_FINDINGS": kp, "SEEN_SIGS": sp, "EXACT_R": R}, cont=False, timeout=timeout)
         if count:
             ck.add_tlc(r, "ExactOps/%s/%d" % (label, rnd))
         if "InLanguage" in r.violated:
@@ -259,24 +266,30 @@ def judge(ck, label, traces, timeout=1500, count=True):
                 seen.add(key)
                 knowns.append({"id": f[0], "trace": f[1], "step": f[2], "dom": f[3], "why": f[4]})
         new = []
-        for f in tuples_ml(r.out, "FAIL"):
-            key = json.dumps(f[:4])
-            if key not in seen:
-                seen.add(key)
-                new.append({"trace": f[0], "step": f[1], "dom": f[2], "why": f[3], "witness": f[4] if len(f) > 4 else None})
-        if r.is_violation and not new:
+        for tag in ("FAIL", "SEEN"):
+            for f in tuples_ml(r.out, tag):
+                key = json.dumps(f[:4])
+                if key not in seen:
+                    seen.add(key)
+                    new.append({"trace": f[0], "step": f[1], "dom": f[2], "why": f[3], "witness": f[4] if len(f) > 4 else None,
+                                "first_of_class": tag == "FAIL"})
+        if r.is_violation and not any(x["first_of_class"] for x in new):
             raise vlib.Broken("TLC reported a violation but printed no FAIL record:\n" + r.out[-3000:])
         fails += new
         if not r.is_violation:
             break
-        gone = {f["trace"] for f in new}
+        for x in new:
+            c = {"dom": x["dom"], "op": byid[x["trace"]]["steps"][x["step"] - 1]["op"], "why": x["why"]}
+            if c not in classes:
+                classes.append(c)
+        gone = {f["trace"] for f in new if f["first_of_class"]}
         todo = [t for t in todo if t["id"] not in gone]
         if not todo:
             break
     return fails, knowns
 
 
-def run_batch(ck, label, hs, only_doms=None, count=True):
+def run_batch(ck, label, hs, only_doms=None, count=True, rounds=None):
     wd, prims, recs = replay_real(label, hs, (lambda h: only_doms) if only_doms else domains_of)
     traces = to_traces(hs, prims, recs, only_doms)
     if count:
@@ -288,7 +301,7 @@ def run_batch(ck, label, hs, only_doms=None, count=True):
             if "err" in x:
                 k = "%s:%s" % (x["dom"], x["err"])
                 nc[k] = nc.get(k, 0) + 1
-    fails, knowns = judge(ck, label, traces, count=count)
+    fails, knowns = judge(ck, label, traces, count=count, rounds=rounds)
     byid = {h["id"]: h for h in hs}
     for f in fails:
         f["history"] = byid[f["trace"]]
@@ -324,11 +337,32 @@ def nontrivial(h):
     return ("join" in ops or "meet" in ops) and ops.count("assume") >= 2 and (h["lang"] == "itv" or two)
 
 
+DESIGN = {"quick": [("Zones", 2, 3, 2), ("Octagons", 2, 3, 2)],          # (module, box radius, constants, constraints)
+          "thorough": [("Zones", 2, 4, 3), ("Octagons", 2, 2, 3)]}
+
+
+def design_models(ck, tier):
+    """design level: DBM + incremental closure (zones) and DBM + tight closure (octagons) for n = 2 satisfy the
+    same equalities, and the Hull-by-enumeration of ExactOps.tla is the entry-wise maximum of closed matrices"""
+    out = []
+    for mod, r_, k_, n_ in DESIGN[tier]:
+        r = tlc(mod, mod, "c12-design-" + mod.lower(), env={"ZR": r_, "ZK": k_, "ZMAXC": n_}, cont=False, timeout=1500)
+        ck.add_tlc(r, "%s(R=%d,K=%d,constraints<=%d)" % (mod, r_, k_, n_))
+        out.append({"model": mod, "box": r_, "constants": k_, "max_constraints": n_, "distinct_states": r.distinct,
+                    "invariants": ["AssumeExact", "ForgetExact", "JoinIsHull", "MeetExact", "LeqExact"], "ok": r.ok})
+        if not r.ok:
+            raise vlib.Broken("design-level model %s violates %s (the oracle's notion of exactness is not satisfiable by the "
+                              "textbook algorithm: spec mistake):\n%s" % (mod, r.violated, r.out[-2500:]))
+    ck.cov["design_level_models"] = out
+
+
 def run(tier, seed):
     ck = Check(PID, tier, seed)
     build("dom_replay")
-    n_lang, n_lift, maxlen = (400, 300, 8) if tier == "quick" else (4000, 2400, 10)
-    chunk_lang, chunk_lift = (400, 300) if tier == "quick" else (800, 800)
+    if not os.environ.get("C12_ONLY"):
+        design_models(ck, tier)
+    n_lang, n_lift, maxlen = (400, 300, 8) if tier == "quick" else (2000, 1200, 10)
+    chunk_lang, chunk_lift = (400, 300) if tier == "quick" else (1000, 600)
     stats = {"histories": collections.Counter(), "ops": collections.Counter(), "params": collections.Counter(),
              "answers": collections.Counter(), "bottom_results": 0}
     nontriv = set()
@@ -354,11 +388,16 @@ def run(tier, seed):
             hs.append(lift_history(ck.rng, hid, maxlen, ck.rng.choice(PARAMS)))
         batches.append(("lift" + str(done // chunk_lift), hs))
         done += m
+    failed_fams = set()
     only = os.environ.get("C12_ONLY")       # developer option: restrict to one family (itv|zone|oct|lift)
     for label, hs in batches:
         if only and not label.startswith(only):
             continue
-        fails, knowns, traces = run_batch(ck, label, hs)
+        # later batches of a family that already failed get fewer re-runs (they only add similar cases)
+        fam = label.rstrip("0123456789")
+        fails, knowns, traces = run_batch(ck, label, hs, rounds=2 if fam in failed_fams else None)
+        if fails:
+            failed_fams.add(fam)
         allf += fails
         allk += knowns
         for h in hs:
@@ -395,12 +434,13 @@ def run(tier, seed):
                        "lifting/product comparison uses the exported at(v) intervals of the paired replays (bounds beyond 2^30 are clamped "
                        "identically on both sides)",
                        "a step on which the real code calls CRAB_ERROR or times out yields no claim (counted in harness_no_claim)",
-                       "TLC stops at the first failing step; failing histories are set aside and TLC re-run (at most 6 rounds per batch)"]
+                       "TLC stops at the first failing step of a class (domain, operation, judgement) not yet reported; it is then re-run (at most %d "
+                       "times per batch) and counts further instances of reported classes as SEEN without stopping" % MAX_ROUNDS]
     for k in allk:
         ck.known(k["id"], {"domain": k["dom"], "step": k["op"], "judgement": k["why"]})
     # one report per (domain, judgement, spec-level operation)
     groups = collections.OrderedDict()
-    for f in sorted(allf, key=lambda x: (x["step"], x["trace"])):
+    for f in sorted(allf, key=lambda x: (not x.get("first_of_class", True), x["step"], x["trace"])):
         st = f["history"]["steps"][f["step"] - 1]
         key = (f["dom"], f["why"], st["op"], st.get("s", {}).get("op"), st.get("c", {}).get("r"))
         groups.setdefault(key, []).append(f)
